@@ -91,9 +91,9 @@ func c16Main(e *Env) (*res.Result, error) {
 }
 
 func c17Main(e *Env) (*res.Result, error) {
-	n := 64
+	n := 200
 	if !e.Quick() {
-		n = 480
+		n = 1200
 	}
 	disabled := disabledTags()
 	forms := specgen.BaseForms()
